@@ -883,28 +883,31 @@ fn ufo_design(c: &UfoCase) -> Design {
 // ------------------------------------------------------------------------------------------------
 // bookkeeping
 
+/// Violation classes. A class is a route pair (or a reformatting variant); its key carries the
+/// differing tables of the smallest failing case, so that the number of keys stays small.
 #[derive(Default)]
-struct Classes(BTreeMap<String, (u64, String, Value, usize)>);
+struct Classes(BTreeMap<String, (u64, String, String, Value, usize)>);
 
 impl Classes {
-    fn add(&mut self, key: &str, what: String, replay: Value, size: usize) {
-        match self.0.get_mut(key) {
+    fn add(&mut self, group: &str, tables: &str, what: String, replay: Value, size: usize) {
+        match self.0.get_mut(group) {
             Some(e) => {
                 e.0 += 1;
-                if size < e.3 {
-                    e.1 = what;
-                    e.2 = replay;
-                    e.3 = size;
+                if size < e.4 {
+                    e.1 = tables.to_string();
+                    e.2 = what;
+                    e.3 = replay;
+                    e.4 = size;
                 }
             }
             None => {
-                self.0.insert(key.to_string(), (1, what, replay, size));
+                self.0.insert(group.to_string(), (1, tables.to_string(), what, replay, size));
             }
         }
     }
     fn report(self, rep: &mut Reporter) {
-        for (key, (n, what, replay, _)) in self.0 {
-            rep.violation(&key, &format!("{what} [{n} case(s) in this class]"), replay);
+        for (group, (n, tables, what, replay, _)) in self.0 {
+            rep.violation(&format!("{group}:{tables}"), &format!("{what} [{n} case(s) in this class]"), replay);
         }
     }
 }
@@ -917,6 +920,7 @@ struct Stats {
     nondet: Vec<String>,
     fonts: BTreeSet<u64>,
     refused_sources: BTreeSet<String>,
+    pairs_subsumed: u64,
     samples: Vec<String>,
     cli_skipped_for_time: u64,
     rejected: BTreeMap<String, u64>,
@@ -1107,9 +1111,9 @@ fn route_case(ctx: &Ctx, s: &Source, st: &Mutex<Stats>, cl: &Mutex<Classes>) {
             st.lock().unwrap().nondet.push(format!("{} ({ra} vs {rb})", s.label));
             continue;
         }
-        let key = format!("route-diff:{ra}-vs-{rb}:{tkey}");
         cl.lock().unwrap().add(
-            &key,
+            &format!("route-diff:{ra}-vs-{rb}"),
+            &tkey,
             format!("{}: {ra} and {rb} give different results: {detail}", s.label),
             json!({"kind": "route", "origin": s.origin, "route_a": ra, "route_b": rb, "tables": detail}),
             text.len(),
@@ -1140,8 +1144,14 @@ fn reformat_case(label: &str, text: &str, only: Option<&[Atom]>, st: &Mutex<Stat
         None => all_variants(),
     };
     let mut seen: BTreeMap<u64, Out> = BTreeMap::new();
+    // atoms that already failed alone on this source: pairs containing them add nothing
+    let mut bad_atoms: BTreeSet<Atom> = BTreeSet::new();
     for atoms in &variants {
         let name = variant_name(atoms);
+        if atoms.len() == 2 && atoms.iter().any(|a| bad_atoms.contains(a)) {
+            st.lock().unwrap().pairs_subsumed += 1;
+            continue;
+        }
         let vt = reprint(&tree, atoms);
         if vt == text {
             let mut g = st.lock().unwrap();
@@ -1180,8 +1190,10 @@ fn reformat_case(label: &str, text: &str, only: Option<&[Atom]>, st: &Mutex<Stat
                 }
                 if judged {
                     failed = true;
+                    bad_atoms.extend(atoms.iter().copied());
                     cl.lock().unwrap().add(
-                        &format!("reformat-diff:{name}:rejected"),
+                        &format!("reformat-diff:{name}"),
+                        "rejected",
                         format!("{label}: the {name} variant is rejected ({m}) while the original compiles"),
                         json!({"kind": "reformat", "label": label, "text": text, "variant": name}),
                         text.len(),
@@ -1201,8 +1213,10 @@ fn reformat_case(label: &str, text: &str, only: Option<&[Atom]>, st: &Mutex<Stat
                     continue;
                 }
                 failed = true;
+                bad_atoms.extend(atoms.iter().copied());
                 cl.lock().unwrap().add(
-                    &format!("reformat-diff:{name}:{tkey}"),
+                    &format!("reformat-diff:{name}"),
+                    &tkey,
                     format!("{label}: reformatting ({name}) changes the output: {detail}"),
                     json!({"kind": "reformat", "label": label, "text": text, "variant": name, "tables": detail}),
                     text.len(),
@@ -1259,7 +1273,8 @@ fn ufo_case(c: &UfoCase, with_cli: bool, ctx: &Ctx, st: &Mutex<Stats>, cl: &Mute
         };
         failed = true;
         cl.lock().unwrap().add(
-            &format!("route-diff:{ra}-vs-{rb}:{sub}:{tkey}"),
+            &format!("route-diff:{ra}-vs-{rb}:{sub}"),
+            &tkey,
             format!("{}: {ra} and {rb} differ: {detail}", d.family),
             json!({"kind": "ufo", "design": d, "sub": sub, "route_a": ra, "route_b": rb, "tables": detail}),
             d.glyphs.len(),
@@ -1570,8 +1585,8 @@ fn replay(path: &Path, ctx: &Ctx) -> ! {
     }
     let classes = cl.into_inner().unwrap();
     let fails = !classes.0.is_empty();
-    for (k, (_, what, _, _)) in &classes.0 {
-        println!("{k}: {what}");
+    for (k, (_, tables, what, _, _)) in &classes.0 {
+        println!("{k}:{tables}: {what}");
     }
     let g = st.into_inner().unwrap();
     if !g.nondet.is_empty() {
